@@ -1,7 +1,48 @@
 From Coq Require Import List Arith ZArith.
 Import ListNotations.
-From UJ Require Import Cache.Logical.
+From UJ Require Import Cache.Logical Cache.RunProofs Cache.HistoryProofs.
 
-Theorem C03_placeholder_wf : forall p : plan, p = [] -> wf_plan p.
-Proof. intros p -> i nd H. destruct i; discriminate. Qed.
-Print Assumptions C03_placeholder_wf.
+(** After ANY history (complete runs, runs cut short after any subset of their writes, source updates,
+    deletions of stored values; fresh_time is a parameter of every run) starting from empty stores, a
+    complete run leaves the from-scratch value in every non-source store, leaves the sources alone
+    and returns the from-scratch value of the requested output.  [tw] / [T] are the write times: H-clock
+    ([ops_ok]) only asks that they are newer than everything stored before. *)
+Theorem C03_incremental_eq_scratch :
+  forall (F : nat -> list Z -> Z) (reg : registry) (p : plan),
+  wf_plan p -> reg_inj reg -> reg_dom reg p ->
+  forall (ops : list op) (fresh : option Z) (output : option nat) (tw : nat -> Z),
+  ops_ok F reg p (fun _ : nat => None) ops ->
+  let sg := apply_ops F reg p (fun _ : nat => None) ops in
+  sources_present reg sg ->
+  let sg' := after_run F reg sg fresh p tw in
+  (forall (n : nat) (e : rentry), reg n = Some e -> is_src e = false ->
+     content sg' (store e) = scratch F reg sg' p n) /\
+  (forall (n : nat) (e : rentry), reg n = Some e -> is_src e = true ->
+     content sg' (store e) = content sg (store e)) /\
+  (forall o : nat, output = Some o -> run_output F reg sg fresh output p = scratch F reg sg p o).
+Proof. exact incremental_eq_scratch. Qed.
+Print Assumptions C03_incremental_eq_scratch.
+
+(** The invariant behind it: every stored value that a run without fresh_time would treat as up to
+    date is the from-scratch value.  It holds for empty stores and is preserved by every operation. *)
+Theorem C03_invariant_over_histories :
+  forall (F : nat -> list Z -> Z) (reg : registry) (p : plan),
+  wf_plan p -> reg_inj reg -> reg_dom reg p ->
+  forall (ops : list op) (sg : sstate),
+  Inv F reg p sg -> ops_ok F reg p sg ops -> Inv F reg p (apply_ops F reg p sg ops).
+Proof. exact inv_history. Qed.
+Print Assumptions C03_invariant_over_histories.
+
+Theorem C03_run_from_any_invariant_state :
+  forall (F : nat -> list Z -> Z) (reg : registry) (p : plan),
+  wf_plan p -> reg_inj reg -> reg_dom reg p ->
+  forall (sg : sstate) (fresh : option Z) (output : option nat) (tw : nat -> Z),
+  Inv F reg p sg -> sources_present reg sg ->
+  let sg' := after_run F reg sg fresh p tw in
+  (forall (n : nat) (e : rentry), reg n = Some e -> is_src e = false ->
+     content sg' (store e) = scratch F reg sg' p n) /\
+  (forall (n : nat) (e : rentry), reg n = Some e -> is_src e = true ->
+     content sg' (store e) = content sg (store e)) /\
+  (forall o : nat, output = Some o -> run_output F reg sg fresh output p = scratch F reg sg p o).
+Proof. exact run_eq_scratch. Qed.
+Print Assumptions C03_run_from_any_invariant_state.
